@@ -135,12 +135,24 @@ class _Obj:
         object.__setattr__(self, "kw", kw)
         object.__setattr__(self, "sets", {})
         object.__setattr__(self, "_log", log)
+        object.__setattr__(self, "vrnt_havoc", [])
 
     def __setattr__(self, k, v):
         self.sets[k] = v
 
     def group_taxa(self):
         self._log.append(("group_taxa", self))
+
+    def __getattr__(self, name):
+        # an in-place operation on the marker axis of the progeny (group_vrnt, sort_vrnt, reorder_vrnt, remove_vrnt, ...): it may permute
+        # or drop markers, so afterwards neither the marker metadata nor the marker order of the genotypes is the parents' (havoc)
+        import re
+        if re.fullmatch(r"(group|sort|reorder|remove|incorp|append|ungroup)(_vrnt)?", name):
+            def op(*a, **k):
+                self._log.append((name, self))
+                self.vrnt_havoc.append(name)
+            return op
+        raise AttributeError(name)
 
 
 class Pgmat:
@@ -312,7 +324,7 @@ def prove_simple(ctx, name, scalar_counts):
                 z3.And(grp.ndim == 1, _t(grp.shape[0]) == T, grp.at(t1) == d["fc0"].t + FAM(t1)))
         e.prove(N + ":post:counters-advanced-exactly", z3.And(_t(me.progeny_counter) == d["pc0"].t + T, _t(me.family_counter) == d["fc0"].t + d["nfam"].t))
         e.prove(N + ":post:marker-metadata-carried-by-identity", all(kw.get(k) is getattr(pg, k) for k in META)
-                and all(out.sets.get(k) is getattr(pg, k) for k in META_ATTR))
+                and all(out.sets.get(k) is getattr(pg, k) for k in META_ATTR) and not out.vrnt_havoc)
         e.prove(N + ":frame:parental-genotypes-and-xoprob-not-written", pg.mat._at is geno_at0 and pg.vrnt_xoprob._at is xo_at0)
         e.prove(N + ":canary:all-alleles-from-the-first-parent", _member(H.at(c1, t1, j1), pg.mat, par[:1], j1) if npar > 1 else
                 H.at(c1, t1, j1) == pg.mat.at(0, par[0], j1), expect="fail", timeout_ms=2000)
@@ -527,7 +539,7 @@ def prove_multi(ctx, name, scalar_counts):
                 z3.And(grp.ndim == 1, _t(grp.shape[0]) == T, grp.at(t1) == d["fc0"].t + fam_t))
         e.prove(N + ":post:counters-advanced-exactly", z3.And(_t(me.progeny_counter) == d["pc0"].t + T, _t(me.family_counter) == d["fc0"].t + d["nfam"].t))
         e.prove(N + ":post:marker-metadata-carried-by-identity", all(kw.get(k) is getattr(pg, k) for k in META)
-                and all(out.sets.get(k) is getattr(pg, k) for k in META_ATTR))
+                and all(out.sets.get(k) is getattr(pg, k) for k in META_ATTR) and not out.vrnt_havoc)
         e.prove(N + ":frame:parental-genotypes-and-xoprob-not-written", pg.mat._at is geno_at0 and pg.vrnt_xoprob._at is xo_at0)
         e.prove(N + ":canary:all-alleles-from-the-first-parent", _member(H.at(c1, t1, j1), pg.mat, par[:1], j1), expect="fail", timeout_ms=2000)
         return "ok"
